@@ -256,6 +256,26 @@ fn fault_variants(thorough: bool) -> Vec<(Scenario, u32)> {
         }
         bad.push(("corrupt/lzma-data-unit0".into(), s0));
     }
+    // more units than the reader queues ahead (it stops reading the source while four units are waiting), one of them
+    // damaged: the coordinator is then blocked in its back-pressure wait, not yet draining, when the worker fails
+    for k in [7usize, 9] {
+        let basek = scen::stream_unc_units(k);
+        for j in [0usize, 1, 4, k - 1] {
+            let mut s = basek.clone();
+            s[j * 6] = 0x03;
+            bad.push((format!("corrupt/unc{k}-ctrl-unit{j}"), s));
+        }
+        // damage that only a worker can notice (the coordinator copies chunks without decoding them): an LZMA chunk
+        // without properties (control 0x80) appended to unit j
+        for j in [0usize, 1, 4, k - 1] {
+            let mut s = basek[..(j + 1) * 6].to_vec();
+            s.extend_from_slice(&[0x80, 0x00, 0x00, 0x00, 0x00, 0x00]);
+            s.extend_from_slice(&basek[(j + 1) * 6..]);
+            bad.push((format!("corrupt/unc{k}-noprops-unit{j}"), s));
+        }
+        bad.push((format!("noterm/unc{k}"), basek[..basek.len() - 1].to_vec()));
+        bad.push((format!("trunc/unc{k}-in-body"), basek[..basek.len() - 1 - 2].to_vec()));
+    }
     for (name, stream) in bad {
         for workers in [1u32, 2, 0] {
             let mut s = reader(&name, Kind::R2 { preset: None }, stream.clone(), None, workers, 4096);
@@ -275,6 +295,16 @@ fn fault_variants(thorough: bool) -> Vec<(Scenario, u32)> {
             }
         }
     }
+    {
+        let base9 = scen::stream_unc_units(9);
+        for j in [1usize, 2, 9, 17, 25, 28] {
+            for workers in [1u32, 2] {
+                let mut s = reader("unc9", Kind::R2 { preset: None }, base9.clone(), None, workers, 4096);
+                s.fail_at = j;
+                v.push((s, 1));
+            }
+        }
+    }
     // --- LZIP reader
     let (lzip3, _) = scen::stream_lzip(&[100, 3000, 5]);
     let mut badl: Vec<(String, Vec<u8>)> = vec![];
@@ -289,6 +319,28 @@ fn fault_variants(thorough: bool) -> Vec<(Scenario, u32)> {
         badl.push(("trunc/half".into(), lzip3[..lzip3.len() / 2].to_vec()));
         badl.push(("trunc/minus1".into(), lzip3[..lzip3.len() - 1].to_vec()));
         badl.push(("empty/zero-bytes".into(), vec![]));
+    }
+    {
+        let (lzip7, _) = scen::stream_lzip(&[30, 10, 0, 20, 5, 40, 3]);
+        let ms = {
+            let mut v = vec![];
+            let mut end = lzip7.len();
+            while end >= 26 {
+                let m = u64::from_le_bytes(lzip7[end - 8..end].try_into().unwrap()) as usize;
+                v.push((end - m, end));
+                end -= m;
+            }
+            v.reverse();
+            v
+        };
+        for j in [0usize, 1, 3, 6] {
+            let mut s = lzip7.clone();
+            s[ms[j].0 + 8] ^= 0x55; // payload
+            badl.push((format!("corrupt/m7-payload-m{j}"), s));
+            let mut s = lzip7.clone();
+            s[ms[j].1 - 20] ^= 0xFF; // CRC
+            badl.push((format!("corrupt/m7-crc-m{j}"), s));
+        }
     }
     for (name, stream) in badl {
         for workers in [1u32, 2, 0] {
